@@ -48,8 +48,8 @@ def _is_position_expr(ctx, fn: FuncInfo, e: ast.expr, depth: int = 4) -> bool | 
             return True
         return None
     if isinstance(e, ast.Name):
-        if e.id in ("original_node", "updated_node", "node"):
-            return False
+        if e.id in ("original_node", "updated_node", "node") or (e.id in fn.params() and e.id != "self" and fn.name.startswith(("leave_", "visit_"))):
+            return False  # the parameters of a libcst hook are nodes, whatever they are called
         sa = r.single_assignments()
         if e.id in sa:
             return _is_position_expr(ctx, fn, sa[e.id], depth - 1)
@@ -71,7 +71,7 @@ def _is_position_expr(ctx, fn: FuncInfo, e: ast.expr, depth: int = 4) -> bool | 
         base = e
         while isinstance(base, ast.Attribute):
             base = base.value
-        if isinstance(base, ast.Name) and base.id in ("original_node", "updated_node", "node"):
+        if isinstance(base, ast.Name) and (base.id in ("original_node", "updated_node", "node") or (base.id in fn.params() and base.id != "self" and fn.name.startswith(("leave_", "visit_")))):
             return False
         return None
     return None
